@@ -889,3 +889,42 @@ func drawFrame(t *rapid.T) FrameCase {
 }
 
 func TestFrameProp(t *testing.T) { stats.Prop(t, drawFrame, checkFrame) }
+
+const keyFreeSectorsLimit = "C19/rhp4-free-sectors-response-exceeds-limit-large-contract"
+
+// TestKnownFreeSectors: a free-sectors request that passes RPCFreeSectorsRequest.Validate
+// (MaxSectorBatchSize distinct indices) against a 4 TiB contract, answered honestly with
+// BuildFreeSectorsProof, yields a response of ~29 MB; ReadResponse allows 20 MiB + 1 KiB, so
+// the renter cannot read it. (encoding.go documents the 20 MiB figure as a trade-off; the
+// same class of mismatch was fixed as a bug in 0.16.1 for smaller contracts.)
+func TestKnownFreeSectors(t *testing.T) {
+	stats.ProbeKnown(t, keyFreeSectorsLimit, "an honest RPCFreeSectorsResponse for a Validate-accepted maximal batch on a 4 TiB contract exceeds the 20 MiB limit ReadResponse applies", func() error {
+		const sectors = 1 << 20 // 4 TiB
+		r := newRng(1, "free-sectors-probe")
+		roots := r.hashes(sectors)
+		k := rhp4.MaxSectorBatchSize
+		freed := make([]uint64, k)
+		for i := range freed { // evenly spread over everything before the last k sectors
+			freed[i] = uint64(i) * uint64(sectors-k) / uint64(k)
+		}
+		req := &rhp4.RPCFreeSectorsRequest{ContractID: types.FileContractID(r.hash()), Prices: r.prices(), Indices: freed, ChallengeSignature: r.sig()}
+		if err := req.Validate(hostPK, types.V2FileContract{Filesize: rhp4.SectorSize * sectors, Capacity: rhp4.SectorSize * sectors}); err != nil {
+			return fmt.Errorf("probe request is not valid: %w", err)
+		}
+		tree, leaves := rhp4.BuildFreeSectorsProof(roots, freed)
+		resp := &rhp4.RPCFreeSectorsResponse{OldSubtreeHashes: tree, OldLeafHashes: leaves, NewMerkleRoot: r.hash()}
+		var buf bytes.Buffer
+		if err := rhp4.WriteResponse(&buf, resp); err != nil {
+			return err
+		}
+		size := buf.Len()
+		var got rhp4.RPCFreeSectorsResponse
+		if err := rhp4.ReadResponse(&buf, &got); err != nil {
+			return fmt.Errorf("response with %d subtree + %d leaf hashes is %d bytes; ReadResponse: %v", len(tree), len(leaves), size, err)
+		}
+		if ok, p := normEqual(resp, &got); !ok {
+			return fmt.Errorf("response differs at %s", p)
+		}
+		return nil
+	})
+}
